@@ -323,4 +323,102 @@ def ftSub (d : Int) (bal : Nat) (n : Int) : Option (Bool × Nat × Res) :=
       some (true, r.natAbs, formatRocket r d)
   | _ => none
 
+/-! ### `service.ChangeAssets` / `transferBalance` (src/service/game.go) with one target
+
+The native balance is the bound token `common.BLANCE_NAME` with 18 decimals, so
+`SetBalance/GetBalance/AddBalance/SubBalance` are `ftSet/ftGet/ftAdd/ftSub` at `d = 18`.
+Result: (success, source balance afterwards, target balance afterwards, response);
+`none` = a nil `*big.Int` would be dereferenced. -/
+
+def gameFailMsg : Str := "Transfer Balance Failed".toList
+
+def gameTransfer (srcBal : Int) (value : Str) : Option (Bool × Res × Res × Str) :=
+  match ftSet 18 srcBal with
+  | none => none
+  | some sb =>
+    let failed : Option (Bool × Res × Res × Str) := some (false, ftGet 18 sb, ftGet 18 0, gameFailMsg)
+    match StrToBigInt value with
+    | .panic => none
+    | .err => failed
+    | .ok amt =>
+      if amt < 0 then failed
+      else
+        match ftGet 18 sb with
+        | .ok cur =>
+          if cur < amt then failed
+          else
+            match ftAdd 18 0 amt, ftSub 18 sb amt with
+            | some tb, some (_, sb', left) =>
+              let leftStr : Str := match left with
+                | .ok v => BigIntToStr v
+                | _ => ['0']
+              some (true, ftGet 18 sb', ftGet 18 tb, "{\"balance\":\"".toList ++ leftStr ++ "\"}".toList)
+            | _, _ => none
+        | _ => none
+
+/-! ### the other helpers of data_convert.go that amounts pass through -/
+
+/-- `Uint64ToBigInt(n)`: `n · baseNumber`. -/
+def uint64ToBigInt (n : Nat) : Int := (n : Int) * 1000000000000000000
+
+/-- IEEE-754 binary64 bit pattern → the value `big.Float.SetFloat64` stores (exact at
+    512 bits; `SetFloat64(NaN)` panics with `ErrNaN`, kept as `.nan`). -/
+def f64Decode (bits : Nat) : BF :=
+  let neg : Bool := bits / 2 ^ 63 % 2 == 1
+  let e : Nat := bits / 2 ^ 52 % 2048
+  let f : Nat := bits % 2 ^ 52
+  if e = 2047 then (if f = 0 then .inf neg else .nan)
+  else if e = 0 then (if f = 0 then .zero neg else .fin neg f (-1074))
+  else .fin neg (2 ^ 52 + f) ((e : Int) - 1075)
+
+/-- `Float64ToBigInt` on a float64 value already held as a `big.Float`, with scale factor
+    `B`: `target` has precision 512 and the default mode ToNearestEven, `base = B` is exact,
+    one `Mul`, then `Int` (truncate; ±Inf leaves 0). -/
+def float64ToBigIntWith (B : Nat) (x : BF) : Res :=
+  match x with
+  | .nan => .panic
+  | x =>
+    match mul .nearestEven prec x (.fin false B 0) with
+    | .nan => .panic
+    | t => .ok (toInt t)
+
+/-- `Float64ToBigInt` (`baseNumber = 10^18`). -/
+def float64ToBigIntOf (x : BF) : Res := float64ToBigIntWith 1000000000000000000 x
+
+/-- `Float64ToBigInt(math.Float64frombits(bits))`. -/
+def float64ToBigInt (bits : Nat) : Res := float64ToBigIntOf (f64Decode bits)
+
+/-- Go's conversion `float64(n)` of a `uint64`: round to nearest even at 53 bits. -/
+def u64ToF64 (n : Nat) : BF :=
+  if n = 0 then .zero false
+  else
+    let r := roundMant .nearestEven 53 n false
+    .fin false r.1 (r.2 : Int)
+
+/-- `Float64ToBigInt(float64(stake))` as used by `MinerManager.AddStake` / `AddMiner`. -/
+def stakeToBigInt (n : Nat) : Res := float64ToBigIntOf (u64ToF64 n)
+
+/-- `strconv.ParseUint(s, 10, 0)`: decimal digits only (no sign, no separators), must be
+    non-empty and fit 64 bits; `none` = error. -/
+def parseUint64 (s : Str) : Option Nat :=
+  if s = [] then none
+  else if s.all isDig then
+    let v := Nat.ofDigitChars 10 s 0
+    if v < 2 ^ 64 then some v else none
+  else none
+
+/-- `strconv.ParseUint(utility.BigIntToStrWithoutDot(money), 10, 0)` (vm stake / unstake
+    instructions): the whole-coin part of an 18-decimal amount. -/
+def stakeArg (money : Int) : Option Nat := parseUint64 (BigIntToStrWithoutDot money)
+
+/-- `BigIntBase10toN(n, base)` for `n ≥ 0`, `2 ≤ base ≤ 16` (digits `0-9a-f`); the empty
+    string for 0. (Outside this domain the Go loop does not terminate or indexes past
+    `tenToAny`; not modelled.) -/
+def bigIntBase10toN (n : Nat) (base : Nat) : Str := if n = 0 then [] else Nat.toDigits base n
+
+/-- `common.GenerateCallDataBigInt`: left-padded to 64 characters. -/
+def callDataBigInt (n : Nat) : Str :=
+  let r := bigIntBase10toN n 16
+  List.replicate (64 - r.length) '0' ++ r
+
 end Rangers.Decimal
